@@ -121,6 +121,19 @@ class ConcatTime(nn.Module):
         return self.head(torch.cat((self.c0(x), self.c1(x)), -1))
 
 
+class Depthwise1d(nn.Module):
+    """conv1d -> depthwise conv1d -> depthwise conv1d -> head: depthwise layers follow the width of their producer"""
+    def __init__(self):
+        super().__init__()
+        self.c0 = nn.Conv1d(2, 2, 1)
+        self.dw0 = nn.Conv1d(2, 2, 1, groups=2)
+        self.dw1 = nn.Conv1d(2, 2, 1, groups=2)
+        self.head = nn.Conv1d(2, 1, 1)
+
+    def forward(self, x):
+        return self.head(self.dw1(self.dw0(self.c0(x))))
+
+
 class Activated(nn.Module):
     """an element-wise op between the last layer and the output: the last layer is still tied to the output"""
     def __init__(self):
@@ -142,6 +155,7 @@ NETS = {
     'activated': (Activated, (1, 2, 2), {'c0': 'free', 'c1': 'frozen'}, {'c0': None, 'c1': ['c0']}),
     'concat-fixed': (ConcatFixed, (1, 2, 2), {'head': 'frozen'}, {'head': [2, 3]}),
     'concat-time': (ConcatTime, (1, 2, 2), {'c0': 'free', 'c1': '=c0', 'head': 'frozen'}, {'c0': None, 'c1': None, 'head': ['c0']}),
+    'depthwise1d': (Depthwise1d, (1, 2, 2), {'c0': 'free', 'dw0': '=c0', 'dw1': '=c0', 'head': 'frozen'}, {'c0': None, 'dw0': ['c0'], 'dw1': ['c0'], 'head': ['c0']}),
     'temporal': (Temporal, (1, 1, 4), {'c0': 'free', 'tc': 'free', 'head': 'frozen'}, {'c0': None, 'tc': ['c0'], 'head': ['tc']}),
 }
 
@@ -225,7 +239,8 @@ def h_search_export(H, net):
     model = PIT(user, input_example=torch.zeros(*shape), fold_bn=True, **PIT_KWARGS.get(net, {}))
     layers = dict(model.seed.named_modules())
     for name, kind in maskers.items():
-        if kind == 'free':
+        if kind == 'free' or kind == 'frozen':
+            # (whatever is stored in the coefficients of a frozen mask - e.g. by loading a checkpoint - the width stays the full one)
             a = layers[name].out_features_masker.alpha
             H.set_(a, H.tensor('alpha.' + name, H.shape(a)))
         # receptive-field and dilation masks of temporal convolutions with more than one tap
@@ -293,7 +308,7 @@ _FUNCS = [_P + 'pit.py::PIT.__init__', _P + 'pit.py::PIT.export', _P + 'graph.py
 HARNESSES = [
     dict(name='whole-import', fn='h_import', property=['C07', 'C08', 'C11'], functions=_FUNCS,
          quick=[dict(net=n, training=t, fold_bn=f) for n, t, f in (('chain', True, False), ('chain', False, True), ('residual', True, False), ('residual-input', False, False),
-                                                                   ('concat', True, False), ('depthwise2d', False, False), ('activated', True, False), ('temporal', True, False), ('concat-fixed', False, False), ('concat-time', True, False))],
+                                                                   ('concat', True, False), ('depthwise2d', False, False), ('activated', True, False), ('temporal', True, False), ('concat-fixed', False, False), ('concat-time', True, False), ('depthwise1d', False, False))],
          thorough=[dict(net=n, training=t, fold_bn=f) for n in NETS for t in _B for f in _B], timeout=120),
     dict(name='whole-search-export', fn='h_search_export', property=['C01', 'C09', 'C08', 'C18', 'C04'], functions=_FUNCS,
          quick=[dict(net=n) for n in NETS], thorough=[dict(net=n) for n in NETS], timeout=120),
